@@ -50,6 +50,18 @@ def resolve_forward_type(t):
     return t, False
 
 
+def _widens_when_strict(t, depth=0) -> bool:
+    # a type that contains a negation or an exclusive-or accepts MORE when its arguments get stricter
+    if depth > 8 or not isinstance(t, LogicalType):
+        return False
+    if t.combinator in ("~", "^"):
+        return True
+    if t.combinator:
+        return any(_widens_when_strict(a, depth + 1) for a in t.args)
+    origin = getattr(t, "__origin__", None)
+    return origin is not t and _widens_when_strict(origin, depth + 1)
+
+
 def register_forward_ref(
     annotation,
     constraints: dict = None,
@@ -247,7 +259,8 @@ class LogicalType(type):  # noqa
 
             arg = mcs._parse_arg(arg)
 
-            if arg == Any:
+            if arg == Any or arg is Rule:
+                # (an annotation that went through parse_annotation carries the bare Rule class for Any)
                 if operator in ('|', '^'):
                     # if Any in any_of, there will be just Any (or Rule)
                     return Rule
@@ -392,10 +405,17 @@ class LogicalType(type):  # noqa
                     return value
 
             # 2. try to transform in strict mode
+            # the two preliminary stages only ask "does this argument take the value as it is":
+            # - an exclude / preserve policy of the caller must not turn a "no" into a "yes"
+            #   (the container would swallow the refusal and keep / drop the element)
+            # - a negation or exclusive-or ACCEPTS MORE under stricter options, so it can not be asked this way
+            stage_policies = dict(invalid_items="throw", invalid_keys="throw", invalid_values="throw")
             if not context.options.no_data_loss or not context.options.no_explicit_cast:
-                strict_options = utype.Options(no_data_loss=True, no_explicit_cast=True)
+                strict_options = utype.Options(no_data_loss=True, no_explicit_cast=True, **stage_policies)
 
                 for con in cls.args:
+                    if _widens_when_strict(con):
+                        continue
                     with context.enter(cls.combinator, options=strict_options) as new_context:
                         try:
                             # error isolation
@@ -409,9 +429,11 @@ class LogicalType(type):  # noqa
             # 3. try to transform with no data loss
             # e.g. Union[str, List[str]] -> [1, 2] -> ['1', '2']
             if not context.options.no_data_loss and not context.options.no_explicit_cast:
-                no_loss_options = utype.Options(no_data_loss=True)
+                no_loss_options = utype.Options(no_data_loss=True, **stage_policies)
 
                 for con in cls.args:
+                    if _widens_when_strict(con):
+                        continue
                     with context.enter(cls.combinator, options=no_loss_options) as new_context:
                         try:
                             # error isolation
@@ -2135,7 +2157,8 @@ class Rule(metaclass=LogicalType):
                         continue
 
             if value_type:
-                with context.enter(route=key) as value_context:
+                # (a route of None means "a new data level" to the context: the key None is a key like any other)
+                with context.enter(route=key if key is not None else "None") as value_context:
                     try:
                         val = value_context.transformer.apply(
                             _val, value_type, func=value_transformer
